@@ -52,6 +52,19 @@ class CdcNetlist(Netlist):
     def first_flop(self, special):
         return self.mr[id(special)][1].regs[0]
 
+    def _propagate(self):
+        """As Netlist._propagate, but a combinational loop in the code under test ends as an exception (reported
+        by the runner as a break of the correspondence) instead of an endless run."""
+        ev = self.ev
+        modified = ev.commit()
+        n = 0
+        while modified:
+            n += 1
+            if n > 500:
+                raise RuntimeError("combinational logic does not settle (loop through %d signals)" % len(modified))
+            ev.execute(self.comb)
+            modified = ev.commit()
+
     def _src(self, impl):
         return self.ev.eval(impl.i) & _mask(impl.regs[0])
 
@@ -107,25 +120,27 @@ def _signed(v, sig):
     return v - (1 << n) if v >> (n - 1) else v
 
 
-def pack_fields(n, sigs):
+def layout_fields(ep, payload_layout, param_layout=()):
+    """[(signal, width)] in the order `_FIFOWrapper` packs the fifo word — payload fields, param fields, first,
+    last — with the widths taken from the LAYOUT GIVEN TO THE CONSTRUCTOR (never from the implementation's
+    signals: a mis-sized signal must show up as a difference, not shrink the test values with it)."""
+    out = [(getattr(ep, name), width) for name, width in list(payload_layout) + list(param_layout)]
+    return out + [(ep.first, 1), (ep.last, 1)]
+
+
+def pack_fw(n, fw):
     d, sh = 0, 0
-    for s in sigs:
+    for s, w in fw:
         d |= n.getu(s) << sh
-        sh += len(s)
+        sh += w
     return d
 
 
-def unpack_fields(n, sigs, value):
+def unpack_fw(n, fw, value):
     sh = 0
-    for s in sigs:
-        n.set(s, (value >> sh) & ((1 << len(s)) - 1))
-        sh += len(s)
-
-
-def ep_fields(ep):
-    """The endpoint signals in the order `_FIFOWrapper` packs them into the fifo word:
-    payload, param, first, last."""
-    return [s for s, _ in ep.payload.iter_flat()] + [s for s, _ in ep.param.iter_flat()] + [ep.first, ep.last]
+    for s, w in fw:
+        n.set(s, (value >> sh) & ((1 << w) - 1))     # the netlist truncates further if the signal is narrower
+        sh += w
 
 
 def find_afifo(module):
@@ -153,7 +168,8 @@ class AFifoInst:
        outputs: [sink.ready, source.valid, source.tok]"""
 
     def __init__(self, name, module, k, buffered=False, cd_w="write", cd_r="read", tokens=(0, 1),
-                 alternate=False, eager=False, sink=None, source=None, ratio=None):
+                 alternate=False, eager=False, sink=None, source=None, ratio=None, layout=None,
+                 param_layout=(), fifo_root=None, ports=None):
         self.name = name
         self.module = module
         self.k = k
@@ -168,15 +184,21 @@ class AFifoInst:
         # there are simply no synchroniser flops to resolve, and every domain the module uses is driven —
         # the sink side's clock on write edges, the source side's on read edges, "sys" with whichever of the two
         # it is named after.
-        af = find_afifo(module)
+        af = find_afifo(fifo_root if fifo_root is not None else module)
         mrs = own_multiregs(af) if af is not None else []
         # before elaboration the domains still have Migen's names
         self.sp_w = ([sp for sp in mrs if sp.odomain == "write"] or [None])[0]   # consume.q  -> write domain
         self.sp_r = ([sp for sp in mrs if sp.odomain == "read"] or [None])[0]    # produce.q  -> read domain
         self.netlist = CdcNetlist(module, clocks=tuple(dict.fromkeys((cd_w, cd_r, "sys"))))
-        self.isigs = ep_fields(self.sink)
-        self.osigs = ep_fields(self.source)
-        self.tokw = sum(len(s) for s in self.isigs)
+        # ports: what the harness drives/observes.  Default: the endpoints, field widths from `layout`.
+        assert layout is not None or ports is not None, "give the layout that was passed to the constructor"
+        if ports is None:
+            ports = dict(in_valid=self.sink.valid, in_ready=self.sink.ready,
+                         in_fields=layout_fields(self.sink, layout, param_layout),
+                         out_valid=self.source.valid, out_ready=self.source.ready,
+                         out_fields=layout_fields(self.source, layout, param_layout))
+        self.ports = ports
+        self.tokw = sum(w for _, w in ports["in_fields"])
         self.qual = [None, None, 1]
         self.tokens = list(tokens)
         self.alternate = alternate
@@ -236,14 +258,16 @@ class AFifoInst:
     def apply(self, letter):
         n = self.netlist
         v, d, r = letter[4:7]
-        n.set(self.sink.valid, v)
-        unpack_fields(n, self.isigs, d)
-        n.set(self.source.ready, r)
+        P = self.ports
+        n.set(P["in_valid"], v)
+        unpack_fw(n, P["in_fields"], d)
+        n.set(P["out_ready"], r)
         n.settle()
 
     def sample(self):
         n = self.netlist
-        return [n.getu(self.sink.ready), n.getu(self.source.valid), pack_fields(n, self.osigs)]
+        P = self.ports
+        return [n.getu(P["in_ready"]), n.getu(P["out_valid"]), pack_fw(n, P["out_fields"])]
 
     def nontrivial(self, letter, outs):
         return bool((letter[0] and letter[4] and outs[0]) or (letter[1] and outs[1] and letter[6]))
@@ -265,7 +289,8 @@ class AFifoInst:
         return (tw, tr, mw, mr, v, d, r)
 
     def monitor(self):
-        return CrossScoreboard(self.depth + (1 if self.buffered else 0))
+        return CrossScoreboard(self.depth + (1 if self.buffered else 0), depth=self.depth,
+                               need_r=3 if self.buffered else 2)
 
 
 class ClockPattern:
@@ -304,27 +329,52 @@ class ClockPattern:
 
 
 class CrossScoreboard:
-    """Property oracle, independent of the model: tokens accepted at write-clock edges (sink.valid & sink.ready)
-    must come out at read-clock edges (source.valid & source.ready) exactly once, in order, unaltered; never more
-    than `capacity` tokens may be in flight (pointer-distance bound)."""
-    def __init__(self, capacity):
-        self.q = []
+    """Property oracle, independent of the model.  Tokens accepted at write-clock edges (sink.valid & sink.ready)
+    must come out at read-clock edges (source.valid & source.ready) exactly once, in order, unaltered, and
+      * never more than `capacity` tokens are in flight (pointer-distance bound);
+      * in EVERY instant in which source.valid is high — stalls included, not only hand-overs — the token on the
+        source is the oldest undelivered one (afifo_inv: the addressed slot holds token number C);
+      * progress of the consumer side: two read-clock edges (three with the output register) after a token was
+        accepted it has been handed over or source.valid is high (afifo_eventually_readable);
+      * progress of the producer side: two write-clock edges after the last hand-over, sink.ready is high
+        whenever fewer than `depth` tokens are in flight (the mirror image: consume pointer seen through the other
+        synchroniser; `writable` is exact because Gray coding is injective)."""
+    def __init__(self, capacity, depth=None, need_r=None):
+        self.q = []                 # [token, read edges strictly after its acceptance]
         self.capacity = capacity
+        self.depth = depth
+        self.need_r = need_r
+        self.w_since = 1 << 30      # write edges strictly after the last hand-over
+
+    def flush(self):
+        self.q = []
+        self.w_since = 1 << 30
 
     def observe(self, letter, outs):
         tw, tr, mw, mr, v, d, r = letter[:7]
         sready, ovalid, otok = outs[:3]
         msg = None
-        if tr and ovalid and r:
-            # a token accepted in this very instant cannot be the one delivered (it is not even stored yet)
+        if ovalid:
             if not self.q:
-                msg = "delivered token %d that was never accepted" % otok
-            else:
-                exp = self.q.pop(0)
-                if exp != otok:
-                    msg = "delivered token %d, expected %d (loss/duplication/reordering/corruption)" % (otok, exp)
+                msg = "source.valid high with token %d on the source although nothing is in flight" % otok
+            elif self.q[0][0] != otok:
+                msg = ("source shows token %d while the oldest undelivered token is %d (loss/duplication/"
+                       "reordering/corruption; checked in every instant with valid high)" % (otok, self.q[0][0]))
+        elif self.need_r is not None and self.q and self.q[0][1] >= self.need_r:
+            msg = "token %d accepted %d read-clock edges ago is neither handed over nor on offer" % tuple(self.q[0])
+        if msg is None and self.depth is not None and not sready and self.w_since >= 2 and len(self.q) < self.depth:
+            msg = ("sink.ready low %d write-clock edges after the last hand-over with only %d of %d tokens in flight"
+                   % (self.w_since, len(self.q), self.depth))
+        if tw:
+            self.w_since += 1
+        if tr:
+            for e in self.q:
+                e[1] += 1
+        if tr and ovalid and r and self.q:
+            self.q.pop(0)           # identity and order were checked above
+            self.w_since = 0
         if tw and v and sready:
-            self.q.append(d)
+            self.q.append([d, 0])
         if msg is None and len(self.q) > self.capacity:
             msg = "%d tokens in flight, capacity %d (pointer distance bound)" % (len(self.q), self.capacity)
         return msg
@@ -464,6 +514,9 @@ class BusSyncInst:
             list(range(1 << width)) if width <= 4 else [0, (1 << width) - 1])
         self.qual = [None]
         self.alphabet = None
+        # drift bound used by the random generators and under which the monitors are armed: the property only
+        # claims coherence/convergence when the time-out exceeds a round trip, t >= 4R+7 (bussync_no_spurious_timeout)
+        self.R = min(ratio_max or 3, (timeout - 7) // 4)
         self.ratio_max = ratio_max
         self._pat = None
 
@@ -510,7 +563,7 @@ class BusSyncInst:
     # eventual-convergence rule to apply
     def gen(self, rng, t):
         if t == 0 or self._pat is None:
-            R = self.ratio_max or 3
+            R = max(self.R, 0)
             if self.pattern is not None:
                 self._pat = PeriodicClocks(*self.pattern)
             elif rng.random() < 0.5:
@@ -529,6 +582,8 @@ class BusSyncInst:
         return (ti, to, rng.randint(0, 1), rng.randint(0, 1), rng.choice((0, full, rng.randint(0, full))), self._cur)
 
     def monitor(self):
+        if self.R < 0 or (self.pattern is not None and PeriodicClocks.bursts(self.pattern)[0] > self.R):
+            return _NoMonitor()     # time-out shorter than any round trip: outside the property's quantifier
         return BusSyncMonitor()
 
 
@@ -783,15 +838,20 @@ class AxiLiteCdcInst:
         master = axi_lite.AXILiteInterface(data_width, address_width)
         slave = axi_lite.AXILiteInterface(data_width, address_width)
         self.module = m = axi_lite.AXILiteClockDomainCrossing(master, slave, cd_from, cd_to)
-        cdcs = [sub for _, sub in m._submodules if isinstance(sub, stream.ClockDomainCrossing)]
-        assert len(cdcs) == 5
+        # AXI4-Lite channel payloads from the bus parameters given to the constructors (not from the signals):
+        aw_l = [("addr", address_width), ("prot", 3)]
+        layouts = {"aw": aw_l, "ar": aw_l, "w": [("data", data_width), ("strb", data_width // 8)],
+                   "b": [("resp", 2)], "r": [("resp", 2), ("data", data_width)]}
+        K = 2       # ClockDomainCrossing(depth=None) documents a depth of 4 = 2^2
+        # synchroniser flops of every AsyncFIFO that exists in the module (none is assumed)
+        cdcs = [sub for _, sub in m._submodules if hasattr(sub, "sink") and hasattr(sub, "source")]
         info = []
         for c in cdcs:
             af = find_afifo(c)
-            mrs = own_multiregs(af)
-            info.append((c, [sp for sp in mrs if sp.odomain == "write"][0], [sp for sp in mrs if sp.odomain == "read"][0],
-                         log2_int(af.depth)))
-        self.netlist = n = CdcNetlist(m, clocks=(cd_from, cd_to))
+            mrs = own_multiregs(af) if af is not None else []
+            info.append((c, ([sp for sp in mrs if sp.odomain == "write"] or [None])[0],
+                         ([sp for sp in mrs if sp.odomain == "read"] or [None])[0]))
+        self.netlist = n = CdcNetlist(m, clocks=tuple(dict.fromkeys((cd_from, cd_to, "sys"))))
         self.chan = []
         for ch in self.CH:
             fwd = ch in ("aw", "w", "ar")
@@ -803,12 +863,11 @@ class AxiLiteCdcInst:
             hit = [x for x in info if n.getu(x[0].sink.valid) == 1]
             n.set(sink.valid, 0)
             n.settle()
-            assert len(hit) == 1, "cannot identify the crossing of channel " + ch
-            c, spw, spr, k = hit[0]
-            self.chan.append(dict(name=ch, fwd=fwd, sink=sink, source=source, spw=spw, spr=spr, k=k,
-                                  isigs=ep_fields(sink), osigs=ep_fields(source)))
+            c, spw, spr = hit[0] if len(hit) == 1 else (None, None, None)
+            self.chan.append(dict(name=ch, fwd=fwd, sink=sink, source=source, spw=spw, spr=spr, k=K,
+                                  ifw=layout_fields(sink, layouts[ch]), ofw=layout_fields(source, layouts[ch])))
         for c in self.chan:
-            c["tokw"] = sum(len(s) for s in c["isigs"])
+            c["tokw"] = sum(w for _, w in c["ifw"])
         self.lean_open = "afifo_multi " + " ".join(str(c["k"]) for c in self.chan)
         self.qual = []
         for j in range(5):
@@ -825,8 +884,10 @@ class AxiLiteCdcInst:
         masks = {}
         for j, c in enumerate(self.chan):
             mw, mr = letter[2 + 5 * j], letter[3 + 5 * j]
-            masks[id(c["spw"])] = mw
-            masks[id(c["spr"])] = mr
+            if c["spw"] is not None:
+                masks[id(c["spw"])] = mw
+            if c["spr"] is not None:
+                masks[id(c["spr"])] = mr
         return Tick((cds, masks))
 
     def model_letter(self, letter):
@@ -842,7 +903,7 @@ class AxiLiteCdcInst:
         for j, c in enumerate(self.chan):
             mw, mr, v, d, r = letter[2 + 5 * j: 7 + 5 * j]
             n.set(c["sink"].valid, v)
-            unpack_fields(n, c["isigs"], d)
+            unpack_fw(n, c["ifw"], d)
             n.set(c["source"].ready, r)
         n.settle()
 
@@ -850,7 +911,7 @@ class AxiLiteCdcInst:
         n = self.netlist
         out = []
         for c in self.chan:
-            out += [n.getu(c["sink"].ready), n.getu(c["source"].valid), pack_fields(n, c["osigs"])]
+            out += [n.getu(c["sink"].ready), n.getu(c["source"].valid), pack_fw(n, c["ofw"])]
         return out
 
     def nontrivial(self, letter, outs):
@@ -881,7 +942,7 @@ class AxiLiteCdcInst:
 class _MultiScoreboard:
     def __init__(self, inst):
         self.inst = inst
-        self.sb = [CrossScoreboard(1 << c["k"]) for c in inst.chan]
+        self.sb = [CrossScoreboard(1 << c["k"], depth=1 << c["k"], need_r=2) for c in inst.chan]
 
     def observe(self, letter, outs):
         for j, c in enumerate(self.inst.chan):
@@ -916,7 +977,7 @@ class AFifoRstInst(AFifoInst):
 
     def __init__(self, name, layout, k, buffered=False, cd_from="usb", cd_to="eth", long_resets=True):
         w = _RstWrap(layout, 1 << k, buffered, cd_from, cd_to)
-        AFifoInst.__init__(self, name, w, k, buffered=buffered, cd_w=cd_from, cd_r=cd_to)
+        AFifoInst.__init__(self, name, w, k, buffered=buffered, cd_w=cd_from, cd_r=cd_to, layout=layout)
         self.lean_open = ("afifo_rst_buffered %d" if buffered else "afifo_rst %d") % k
         # the private domains created by the crossing (names carry a duid): found by what they clock
         keys = list(self.netlist.sync.keys())
@@ -988,7 +1049,8 @@ class AFifoRstInst(AFifoInst):
         return tuple(base) + (ra, rb)
 
     def monitor(self):
-        return _RstScoreboard(self.depth + (1 if self.buffered else 0)) if self.long_resets else _NoMonitor()
+        return (_RstScoreboard(self.depth + (1 if self.buffered else 0), depth=self.depth,
+                               need_r=3 if self.buffered else 2) if self.long_resets else _NoMonitor())
 
 
 class _NoMonitor:
@@ -1001,6 +1063,98 @@ class _RstScoreboard(CrossScoreboard):
     discards everything in flight; outside resets the usual exactly-once/in-order rule applies."""
     def observe(self, letter, outs):
         if letter[7] or letter[8]:
-            self.q = []
+            self.flush()
             return None
         return CrossScoreboard.observe(self, letter[:7], outs)
+
+
+# ---------------------------------------------------------------------------------------------------------------
+# The UART FIFO pair, built the way users get it: through `UART(phy_cd=...)` (which calls `_get_uart_fifo`)
+
+class UartFifoInst(AFifoInst):
+    """`UART(tx_fifo_depth=2^k, rx_fifo_depth=2^k, rx_fifo_rx_we=True, phy_cd="phy")`, one direction.
+       tx: CSR write strobe `_rxtx.re`/`_rxtx.r` (sys) -> tx FIFO -> `uart.source` (phy)
+       rx: `uart.sink` (phy) -> rx FIFO -> CSR `_rxtx.w`, popped by the read strobe `_rxtx.we` (sys)
+       Tokens are the 8 data bits (+ first/last, which the CSR side cannot set or see: driven/expected 0)."""
+
+    def __init__(self, name, direction, k=4, phy_cd="phy"):
+        from litex.soc.cores import uart as uartm
+        u = uartm.UART(phy=None, tx_fifo_depth=1 << k, rx_fifo_depth=1 << k, rx_fifo_rx_we=True, phy_cd=phy_cd)
+        data = [("data", 8)]
+        if direction == "tx":
+            ports = dict(in_valid=u._rxtx.re, in_ready=u.tx_fifo.sink.ready, in_fields=[(u._rxtx.r, 8)],
+                         out_valid=u.source.valid, out_ready=u.source.ready,
+                         out_fields=layout_fields(u.source, data))
+            AFifoInst.__init__(self, name, u, k, cd_w="sys", cd_r=phy_cd, ports=ports, fifo_root=u.tx_fifo)
+        else:
+            ports = dict(in_valid=u.sink.valid, in_ready=u.sink.ready, in_fields=[(u.sink.data, 8)],
+                         out_valid=u.rx_fifo.source.valid, out_ready=u._rxtx.we, out_fields=[(u._rxtx.w, 8)])
+            AFifoInst.__init__(self, name, u, k, cd_w=phy_cd, cd_r="sys", ports=ports, fifo_root=u.rx_fifo)
+
+
+# ---------------------------------------------------------------------------------------------------------------
+# Same-domain ClockDomainCrossing (cd_from == cd_to): a wire, or a Buffer when `buffered` — single clock
+
+def same_domain_inst(name, layout, cd, buffered, data_values=(0, 1)):
+    from litex.soc.interconnect import stream
+    from streamlib import StreamInst
+    m = stream.ClockDomainCrossing(layout, cd_from=cd, cd_to=cd, buffered=buffered)
+    inst = StreamInst(name, m, "pipevalid" if buffered else "wire", data_values=data_values,
+                      capacity=1 if buffered else 0, clocks=tuple(dict.fromkeys((cd, "sys"))))
+    inst.clocks = lambda letter: (cd,)
+    return inst
+
+
+# ---------------------------------------------------------------------------------------------------------------
+# Job runner: as explore.run_jobs, but one job cannot take the others down — an exception while building or
+# driving a (changed) implementation, a killed worker or a job that does not come back in time is turned into a
+# disagreement of that instance, and every other instance (with its monitors) still runs.
+
+def run_jobs_safe(ctx, jobs, timeout_s):
+    import multiprocessing as mp, os, traceback
+    _explore._JOBS = jobs
+    _explore._CTXINFO = (ctx.prop, ctx.seed, ctx.tier)
+    procs = min(len(jobs), int(os.environ.get("VERIF_PROCS", "0")) or (os.cpu_count() or 4))
+    results, failed = [], []
+    pool = mp.get_context("fork").Pool(procs)
+    try:
+        handles = [pool.apply_async(_explore._worker, (i,)) for i in range(len(jobs))]
+        t_end = time.time() + timeout_s
+        for i, h in enumerate(handles):
+            try:
+                results.append(h.get(timeout=max(1.0, t_end - time.time())))
+            except mp.TimeoutError:
+                failed.append((i, "timeout: job did not finish within %d s (hang or killed worker)" % timeout_s))
+            except Exception as e:  # raised inside the worker
+                failed.append((i, "exception: %s" % "".join(traceback.format_exception_only(type(e), e)).strip()))
+    finally:
+        pool.terminate()
+    dis, bad = [], []
+    for idx, covd, ds in sorted(results):
+        ctx.cov.instances += covd["instances"]
+        for smp in covd["samples"]:
+            if len(ctx.cov.samples) < 8:
+                ctx.cov.samples.append(smp)
+        ctx.cov.evaluations += covd["evaluations"]
+        ctx.cov.nontrivial += covd["nontrivial"]
+        ctx.cov.states += covd["states"]
+        ctx.cov.transitions += covd["transitions"]
+        for k, v in covd["hist"].items():
+            ctx.cov.count(k, v)
+        ctx.cov.notes += covd["notes"]
+        for (trace, cycle, io, mo, kind, iname, lopen) in ds:
+            d = Disagreement(None, trace, cycle, io, mo, kind)
+            d.inst_name, d.lean_open, d.job = iname, lopen, idx
+            dis.append(d)
+            bad.append(idx)
+    for i, why in failed:
+        d = Disagreement(None, [], 0, None, None, kind=why)
+        d.inst_name, d.lean_open, d.job = "job #%d" % i, None, i
+        try:
+            d.inst_name = getattr(jobs[i], "label", None) or d.inst_name
+        except Exception:
+            pass
+        dis.append(d)
+        bad.append(i)
+        ctx.cov.notes.append("job %d: %s" % (i, why))
+    return dis, bad
